@@ -85,8 +85,10 @@ def plan(prop):
         for kind, dims in (('service', 1), ('pickup', 1), ('delivery', 2), ('break', 1), ('arrival', 1)):
             obs.append((prag, lambda ctx, kind=kind, dims=dims: po.ob_writer_step(ctx, kind, dims)))
         tours = [((), 1, (7, 3, 2, 2, 2)), (('service',), 1, (7, 3, 2, 2, 2)), (('pickup', 'delivery'), 1, (7, 3, 2, 2, 2)), (('delivery', 'pickup'), 2, (1, 2, 5, 5, 5)),
-                 (('delivery', 'break', 'pickup'), 1, (7, 3, 2, 2, 2))]
+                 (('delivery', 'break', 'pickup'), 1, (7, 3, 2, 2, 2)), (('delivery', 'reload', 'delivery'), 1, (7, 3, 2, 2, 2)),
+                 (('dpickup', 'reload', 'ddelivery'), 1, (7, 3, 2, 2, 2)), (('reload', 'delivery'), 2, (1, 2, 5, 5, 5))]
         if not Q:
+            tours += [(('pickup', 'delivery', 'reload', 'pickup', 'delivery'), 1, (7, 3, 2, 2, 2)), (('delivery', 'dpickup', 'reload', 'pickup', 'ddelivery'), 1, (7, 3, 2, 2, 2))]
             tours += [(('delivery', 'delivery', 'pickup'), 2, (7, 3, 2, 2, 2)), (('pickup', 'service', 'delivery', 'pickup'), 1, (1, 2, 5, 5, 5)),
                       (('service', 'pickup', 'pickup', 'delivery'), 1, (7, 3, 2, 5, 4))]
         for kinds, dims, wr in tours:
